@@ -187,9 +187,48 @@ macro_rules! fixed_word_shift {
         }
     };
 }
+// same, but the kernels are entered through Cow::Borrowed (identical results; the by-value arms `into_owned`/`drain`
+// are decided separately by c07_t_sh?2_owned_*): used where the caller passes an owned value and only the value matters
+macro_rules! fixed_word_shift_borrowed {
+    ($shl:ident, $shr:ident, $dg:expr) => {
+        pub(crate) fn $shl<T: PrimInt>(n: Cow<'_, BigUint>, shift: T) -> BigUint {
+            if shift < T::zero() {
+                panic!("attempt to shift left with negative");
+            }
+            if n.is_zero() {
+                return BigUint::ZERO;
+            }
+            let bits = T::from(big_digit::BITS).unwrap();
+            kani::assert((shift / bits).to_usize() == Some($dg), "VERIF harness word count mismatch");
+            let b: &BigUint = &n;
+            biguint_shl2(Cow::Borrowed(b), $dg, (shift % bits).to_u8().unwrap())
+        }
+        pub(crate) fn $shr<T: PrimInt>(n: Cow<'_, BigUint>, shift: T) -> BigUint {
+            if shift < T::zero() {
+                panic!("attempt to shift right with negative");
+            }
+            if n.is_zero() {
+                return BigUint::ZERO;
+            }
+            let bits = T::from(big_digit::BITS).unwrap();
+            kani::assert((shift / bits).to_usize() == Some($dg), "VERIF harness word count mismatch");
+            let b: &BigUint = &n;
+            biguint_shr2(Cow::Borrowed(b), $dg, (shift % bits).to_u8().unwrap())
+        }
+    };
+}
+fixed_word_shift_borrowed!(shl_fixedb_0, shr_fixedb_0, 0);
+fixed_word_shift_borrowed!(shl_fixedb_1, shr_fixedb_1, 1);
+fixed_word_shift_borrowed!(shl_fixedb_7, shr_fixedb_7, 7);
+fixed_word_shift_borrowed!(shl_fixedb_15, shr_fixedb_15, 15);
 fixed_word_shift!(shl_fixed_0, shr_fixed_0, 0);
 fixed_word_shift!(shl_fixed_1, shr_fixed_1, 1);
 fixed_word_shift!(shl_fixed_2, shr_fixed_2, 2);
+fixed_word_shift!(shl_fixed_3, shr_fixed_3, 3);
+fixed_word_shift!(shl_fixed_7, shr_fixed_7, 7);
+fixed_word_shift!(shl_fixed_8, shr_fixed_8, 8);
+fixed_word_shift!(shl_fixed_14, shr_fixed_14, 14);
+fixed_word_shift!(shl_fixed_15, shr_fixed_15, 15);
 
 // BEGIN GENERATED c07_biguint_shift
 shl2_shape!(c07_t_shl2_0_w0, 0, 0, 1);
